@@ -341,3 +341,76 @@ func lengthUnit(format string) func(c *Ctx) {
 		c.Exhaustive(fmt.Sprintf("fieldlens: every length 0..%d of each of the %d text fields of %s", maxLen, textFieldCount[format], format))
 	}
 }
+
+// mixedSizesUnit (C01–C05): streams in which ONE record is giant (a field of
+// 1.2 MiB; thorough also 5 MiB) and hundreds of small records follow it (and a
+// few precede it): whatever a reader grows for the giant record — a scanner
+// buffer, a scratch slice — it may want to give back later, in the middle of
+// the stream; and a reader that sizes things by the first records meets the
+// giant one late. 700 records per stream, the giant one first, in the middle,
+// or last.
+func mixedSizesUnit(format string) func(c *Ctx) {
+	return func(c *Ctx) {
+		cd := codecByName(format)
+		sizes := []int{1<<20 + 200000}
+		if c.Thorough {
+			sizes = append(sizes, 5<<20+17)
+		}
+		idx := int64(0)
+		for _, size := range sizes {
+			for _, at := range []int{0, 3, 350, 699} {
+				c.Case(idx, func(k *K) {
+					r := k.Rand()
+					var text bytes.Buffer
+					var want []item
+					nrec := 700
+					if format == "newick" {
+						nrec = 300
+					}
+					for j := 0; j < nrec; j++ {
+						v := "r" + fmt.Sprint(j)
+						if j == at {
+							v = string(randSeq(r, []byte("ACGTNacgtn"), size))
+						}
+						field := 0
+						if format == "fasta" || format == "fastq" {
+							field = 1 // the sequence
+						}
+						if format == "sam" {
+							field = 4
+						}
+						if format == "bed" {
+							field = 1 // the name (BED streams hold one field count: built directly below)
+							rec := genBED(r, 6)
+							rec.Name = v
+							rec.Write(&text)
+							want = append(want, item{Key: bedKey(bedExpected(rec))})
+							continue
+						}
+						it, ok, skip := fieldRecord(r, format, field, v, 2, &text)
+						if ok && !skip {
+							want = append(want, it)
+						}
+					}
+					x := text.Bytes()
+					k.Input("format", format)
+					k.Input("giant_record_at", at)
+					k.Input("giant_field_bytes", size)
+					got, over := collect(cd.seq(bytes.NewReader(x)), len(want)+5)
+					if over || !sameTrace(got, want) {
+						d := 0
+						for d < len(got) && d < len(want) && got[d] == want[d] {
+							d++
+						}
+						k.Failf("mixed-sizes", "%s: a stream of %d records, record %d of which has a field of %d bytes, decodes to %d items; the first difference is at item %d", format, len(want), at, size, len(got), d)
+						return
+					}
+					k.Count("mixed_size_streams", 1)
+					k.Count("records_roundtripped", int64(len(want)))
+					k.Nontrivial([]byte(format), []byte(fmt.Sprint("mixed", size, at)))
+				})
+				idx++
+			}
+		}
+	}
+}
